@@ -209,12 +209,12 @@ def _md(name, nn, term, rules, rounds, note, subst_method=None, extra_terms=(), 
     R = model_rules(X, Y)
     first = 1 + len(extra_terms)
     ops = [add(term)] + [add(t) for t in extra_terms] + [rewrite(*[R[r] for r in rules]) for _ in range(rounds)]
-    t = T(name, 'Lm', nn + 2, ops, distinct=distinct, late={X: first, Y: first}, note=note, subst_method=subst_method, model=True)
+    t = T(name, 'Lm', nn + 2, ops, distinct=(distinct or []) + [[X, Y]], late={X: first, Y: first}, note=note, subst_method=subst_method, model=True)
     t.light = True
     return t
 
 MODEL = [
-    _md('MD1', 3, mlet(2, madd(mvar(2), mvar(0)), mmul(mvar(0), mvar(1))), ['let-add', 'let-var', 'let-other', 'add-comm'], 2,
+    _md('MD1', 3, mlet(2, madd(mvar(2), mvar(0)), mmul(mvar(0), mvar(1))), ['let-add', 'let-var', 'let-other', 'add-comm'], 1,
         'let pushed through a sum, resolved at the leaves (re-binding rule: $x is bound twice on the right side)', distinct=[[0, 2], [1, 2]]),
     _md('MD2', 3, mlet(2, mmul(mvar(2), madd(mvar(2), mvar(0))), madd(mvar(0), mvar(1))), ['let-subst', 'distr'], 2,
         'right side with the substitution form b[x := t], default method (syntactic expression)', distinct=[[0, 2], [1, 2]]),
@@ -222,12 +222,13 @@ MODEL = [
         'the same with the extraction-based substitution method', subst_method='ExtractionSubst', distinct=[[0, 2], [1, 2]]),
     _md('MD4', 3, mmul(mvar(0), msum(2, madd(mvar(2), mvar(1)))), ['sum-pull', 'sum-add', 'distr', 'mul-comm'], 2,
         'a factor is moved under the summation binder; capture is avoided by slots only', distinct=[[0, 2], [1, 2]]),
-    _md('MD5', 4, mlet(2, msum(3, mmul(mvar(3), mvar(2))), madd(mvar(0), mvar(1))), ['let-sum', 'let-mul', 'let-var', 'let-other'], 3,
-        'let pushed under a summation binder whose body mentions both bound slots', distinct=[[0, 2, 3], [1, 2, 3]]),
     _md('MD6', 3, mlet(2, mvar(0), mvar(1)), ['let-const'], 1, 'conditional rule: fires only where the body does not depend on the bound slot',
         extra_terms=(mlet(2, madd(mvar(2), mvar(0)), mvar(1)),), distinct=[[0, 2], [1, 2]]),
 ]
 MODEL_THOROUGH = [
+    _md('MD1x', 3, mlet(2, madd(mvar(2), mvar(0)), mmul(mvar(0), mvar(1))), ['let-add', 'let-var', 'let-other', 'add-comm'], 2, 'MD1 with a second round', distinct=[[0, 2], [1, 2]]),
+    _md('MD5', 4, mlet(2, msum(3, mmul(mvar(3), mvar(2))), madd(mvar(0), mvar(1))), ['let-sum', 'let-mul', 'let-var', 'let-other'], 3,
+        'let pushed under a summation binder whose body mentions both bound slots', distinct=[[0, 2, 3], [1, 2, 3]]),
     _md('MD7', 4, msum(2, msum(3, mmul(madd(mvar(2), mvar(0)), madd(mvar(3), mvar(1))))), ['sum-swap', 'distr', 'sum-add', 'sum-pull', 'mul-comm'], 2,
         'two nested summations, swapped and distributed', distinct=[[0, 2, 3], [1, 2, 3]]),
     _md('MD8', 4, mlet(2, mlet(3, madd(mvar(3), mvar(2)), mvar(2)), mmul(mvar(0), mvar(1))), ['let-subst', 'let-add', 'let-var', 'let-other', 'let-const'], 2,
